@@ -25,6 +25,10 @@ Restricted grammar
 Anything else -> OutOfGrammar with the offending text; the files then hold the REFERENCE kernels (= the hand model), the
 status `translator-out-of-grammar` is returned (CLI exit code 2) and recorded in the evidence by lib/vf/props/C07.py.
 
+Consume-everything (translate/strict.py, DESIGN §9.4): `account_loop` matches the body of the outer loop statement by statement (the
+translated expressions are wild cards there, every other statement is fixed text incl. the print block and the two result blocks);
+every member of the Stats structs is a field of a known form.
+
 Usage: gen_C07_alm.py [repo] [outdir]"""
 import os, re, sys, unicodedata
 from fractions import Fraction
